@@ -376,3 +376,14 @@ def c37(ctx):
                 "returns objects equal to the inputs, and independently that each reduced expression evaluated in the "
                 "environment extended by the replacements has the value of its input")
     simple(ctx, "MC_C37", "Trace_C37", floor=0.9)
+
+
+@plan("C39")
+def c39(ctx):
+    ctx.rule = ("TLC enumerates arithmetic expressions (incl. cancelling symbols), undefined functions, derivatives and "
+                "Subs objects produced by differentiating them, image / condition sets, relationals and piecewise "
+                "expressions, and ~170 expanded polynomials in two choices of variable; TLC validates free_symbols "
+                "against the definition on the dump (binders: Subs, ImageSet, ConditionSet), has_symbol for five probe "
+                "symbols, function_symbols and atoms against the subterms of the matching kind, and coeff by "
+                "reconstruction of the polynomial's value with coefficients free of the variable")
+    simple(ctx, "MC_C39", "Trace_C39", floor=0.9)
